@@ -12,7 +12,7 @@ res_line = ''
 for lg in logs:
     if lg.exists():
         for line in lg.read_text().splitlines():
-            if line.startswith(f'RESULT {name} ') and ('demo_changed_rc=1' in line or not res_line):
+            if line.startswith(f'RESULT {os.environ.get("RESULT_NAME", name)} ') and ('demo_changed_rc=1' in line or not res_line):
                 res_line = line
 m = re.search(r'demo_changed_rc=(\d+) demo_unchanged_rc=(\d+) suite=\[(.*)\]', res_line)
 if not m:
